@@ -85,7 +85,8 @@ type scenario struct {
 func ap(a netip.Addr, p uint16) netip.AddrPort { return netip.AddrPortFrom(a, p) }
 
 // buildScenario lays out conversations and the event alphabet (simplest first).
-func buildScenario(progs []*ruleProgram, side int, v6, ext, l2, peer, short bool, a, b string, depth int, rich bool) *scenario {
+func buildScenario(progs []*ruleProgram, sp scenSpec) *scenario {
+	side, v6, ext, l2, peer, short, a, b, depth, rich := sp.side, sp.v6, sp.ext, sp.l2, sp.peer, sp.short, sp.a, sp.b, sp.depth, sp.rich
 	sc := &scenario{side: side, v6: v6, ext: ext, l2: l2, redirectPeer: peer, short: short, progA: progIndex(progs, a), progB: progIndex(progs, b), depth: depth,
 		progs: progs, addrs: addrsFor(v6), decCache: map[[3]int]decision{}}
 	fam := "v4"
@@ -110,6 +111,9 @@ func buildScenario(progs []*ruleProgram, side int, v6, ext, l2, peer, short bool
 	if short {
 		sc.name += "/short"
 	}
+	if sp.long {
+		sc.name += "/long"
+	}
 	ad := sc.addrs
 	src := ad.client
 	var cookie uint64
@@ -122,6 +126,9 @@ func buildScenario(progs []*ruleProgram, side int, v6, ext, l2, peer, short bool
 	U := addConv(conv{name: "U", kind: cvNormal, src: ap(src, 40001), dst: ap(ad.remote, 4000), proto: ipUDP, cookie: cookie})
 	D := addConv(conv{name: "D", kind: cvDNS, src: ap(src, 40002), dst: ap(ad.remote, 53), proto: ipUDP, cookie: cookie})
 	R := addConv(conv{name: "R", kind: cvReply, src: ap(src, 8080), dst: ap(ad.wanPeer, 50000), proto: ipTCP, cookie: cookie})
+	// a TCP session to the DNS port (DNS over TCP: retry after a truncated answer, zone transfer, tcp:// resolver): a
+	// tracked connection like T, with the port-53 treatment of D
+	TD := addConv(conv{name: "TD", kind: cvNormal, src: ap(src, 40004), dst: ap(ad.remote, 53), proto: ipTCP, cookie: cookie})
 	RU, L, SP, SPu, SM, SMu, FW := -1, -1, -1, -1, -1, -1, -1
 	if rich {
 		RU = addConv(conv{name: "RU", kind: cvReply, src: ap(src, 8081), dst: ap(ad.wanPeer, 50001), proto: ipUDP, cookie: cookie})
@@ -160,6 +167,41 @@ func buildScenario(progs []*ruleProgram, side int, v6, ext, l2, peer, short bool
 		}
 		sc.events = append(sc.events, event{name: hn + "." + sc.convs[ci].name + dir + "." + kname, kind: evFrame, hook: hook, conv: ci, flags: flags, flavour: flav})
 	}
+	if sp.long {
+		// The long-lived-flows leg: few symbols, deep. Flows that stay ACTIVE across more than one idle timeout (every
+		// gap between two packets of a flow is at most the timeout) must stay tracked: frames of a UDP flow in both
+		// directions (the reverse one first makes it WAN-originated), of a TCP connection up to its FIN, of a WAN-opened
+		// TCP connection and its replies; the clock steps that separate "refreshed by the last packet" from "as old as
+		// the first packet" for the idle timeout (+2 s, +120 s) and for the timeout after FIN/RST (+2 s, +10 s); and the
+		// rule swap that makes a re-routed flow visible.
+		fr(hookRouted, U, "DGRAM", 0)
+		fr(hookRouted, T, "SYN", fSYN)
+		fr(hookRouted, T, "ACK", fACK|fPSH)
+		sc.events = append(sc.events,
+			event{name: "swap-rules", kind: evSwap},
+			event{name: "tick+2s", kind: evTick, dt: 2 * sec},
+			event{name: "tick+10s", kind: evTick, dt: 10 * sec},
+			event{name: "tick+120s", kind: evTick, dt: 120 * sec},
+		)
+		fr(hookRouted, T, "FIN", fFIN|fACK)
+		fr(hookWanIn, U, "DGRAM", 0)
+		fr(hookWanIn, R, "SYN", fSYN)
+		fr(hookRouted, R, "ACK", fACK|fPSH)
+		if rich {
+			// the steps next to the idle timeout, a learned domain, the reverse hook on the LAN side, the reverse
+			// direction of the routed connection, a TCP session to the DNS port
+			sc.events = append(sc.events,
+				event{name: "tick+119s", kind: evTick, dt: 119 * sec},
+				event{name: "tick+121s", kind: evTick, dt: 121 * sec},
+				event{name: "learn-domain", kind: evDomain},
+			)
+			fr(hookLanOut, U, "DGRAM", 0)
+			fr(hookWanIn, T, "ACK", fACK)
+			fr(hookRouted, TD, "SYN", fSYN)
+			fr(hookRouted, TD, "ACK", fACK|fPSH)
+		}
+		return sc
+	}
 	// simplest first
 	fr(hookRouted, T, "SYN", fSYN)
 	fr(hookRouted, T, "ACK", fACK|fPSH)
@@ -195,6 +237,8 @@ func buildScenario(progs []*ruleProgram, side int, v6, ext, l2, peer, short bool
 		event{name: "twice." + hk + ".D.DGRAM", kind: evFrame, hook: hookRouted, conv: D, flavour: flav, burst: true},
 		event{name: "twice." + hk + ".U.DGRAM", kind: evFrame, hook: hookRouted, conv: U, flavour: flav, burst: true},
 	)
+	fr(hookRouted, TD, "SYN", fSYN)
+	fr(hookRouted, TD, "ACK", fACK|fPSH)
 	fr(hookRouted, T, "FIN", fFIN|fACK)
 	fr(hookRouted, T, "RST", fRST)
 	fr(hookWanIn, T, "SYNACK", fSYN|fACK)
@@ -215,6 +259,8 @@ func buildScenario(progs []*ruleProgram, side int, v6, ext, l2, peer, short bool
 	sc.events = append(sc.events, event{name: "connstate-full", kind: evFull})
 	if rich {
 		fr(hookWanIn, T, "ACK", fACK)
+		fr(hookRouted, TD, "FIN", fFIN|fACK)
+		fr(hookWanIn, TD, "SYNACK", fSYN|fACK)
 		fr(hookRouted, R, "FIN", fFIN|fACK)
 		fr(hookWanIn, RU, "DGRAM", 0)
 		fr(hookRouted, RU, "DGRAM", 0)
